@@ -12,6 +12,7 @@ pub fn harnesses() -> Vec<Harness> {
         Harness { name: "c18_shapes", property: "C18", f: c18_shapes, about: "multiaddress shapes: only dialable addresses carrying a peer id are stored, in normalised form" },
         Harness { name: "c18_sync_flush", property: "C18", f: c18_sync_flush, about: "merge with the on-disk cache loses nothing known to either side; save then load returns the same peers and addresses; limits after clean-up" },
         Harness { name: "c18_untrusted_file", property: "C18", f: c18_untrusted_file, about: "a well-formed cache file whose timestamps and counters are arbitrary (untrusted) values loads or is rejected without a panic; what is loaded is clean" },
+        Harness { name: "c18_concurrent_flush", property: "C18", f: c18_concurrent_flush, about: "two processes flush to one cache file; the second one's whole flush lands between any two file-system operations of the first; a reader loads the file at every moment" },
         Harness { name: "c18_corrupt", property: "C18", f: c18_corrupt, about: "corrupt or foreign cache file is ignored without a panic and replaced by a loadable file" },
     ]
 }
@@ -242,6 +243,77 @@ fn c18_sync_flush() {
     if with_cleanup {
         check_bool("reload:same_as_saved_after_cleanup", loaded_pairs == disk_pairs);
     }
+}
+
+fn c18_concurrent_flush() {
+    use std::cell::{Cell, RefCell};
+    use std::rc::Rc;
+    let mut a = setup(4, 2);
+    let cfg = a.config().clone();
+    let mut b = BootstrapCacheStore::new(cfg.clone()).unwrap();
+    // the two processes hold caches of different sizes (so that their serialised lengths differ either way)
+    let (na, nb) = if choice(2) == 0 { (1, 3) } else { (3, 1) };
+    for j in 0..na {
+        a.add_addr(quic(1 + j as u8, 1));
+    }
+    for j in 0..nb {
+        b.add_addr(quic(4 + j as u8, 1));
+    }
+    let had_file = choice(2) == 1;
+    if had_file {
+        let mut old = BootstrapCacheStore::new(cfg.clone()).unwrap();
+        old.add_addr(quic(9, 1));
+        old.write().expect("earlier flush");
+    }
+    // B's whole flush lands right before the k-th file-system operation of A's flush (k beyond A's last operation: after it)
+    let k = choice(8);
+    let through_sync = choice(2) == 1;
+    note(format!("A holds {na}, B holds {nb}, file existed={had_file}, B flushes before A's operation #{k}, A uses {}", if through_sync { "sync_and_flush_to_disk" } else { "write" }));
+    let count = Rc::new(Cell::new(0usize));
+    let fired = Rc::new(Cell::new(false));
+    let unloadable = Rc::new(RefCell::new(None::<String>));
+    let b_result = Rc::new(RefCell::new(None::<bool>));
+    let path = "/cache/bootstrap_cache.json";
+    let reader = {
+        let cfg = cfg.clone();
+        let unloadable = unloadable.clone();
+        move |when: String| {
+            if symrt::env::fs::exists(path) && BootstrapCacheStore::load_cache_data(&cfg).is_err() && unloadable.borrow().is_none() {
+                *unloadable.borrow_mut() = Some(when);
+            }
+        }
+    };
+    {
+        let (count, fired, b_result, reader) = (count.clone(), fired.clone(), b_result.clone(), reader.clone());
+        let mut b_slot = Some(b);
+        symrt::env::fs::set_intruder(Some(Box::new(move |op: &str| {
+            let n = count.get();
+            count.set(n + 1);
+            reader(format!("before A's operation #{n} ({op})"));
+            if n == k && !fired.get() {
+                fired.set(true);
+                let mut b = b_slot.take().unwrap();
+                *b_result.borrow_mut() = Some(b.write().is_ok());
+                reader(format!("after B's flush, before A's operation #{n} ({op})"));
+            }
+        })));
+    }
+    let ra = if through_sync { a.sync_and_flush_to_disk(false) } else { a.write() };
+    symrt::env::fs::set_intruder(None);
+    reader("after A's flush".to_string());
+    if fired.get() { cover("interleaved"); } else { cover("not_interleaved"); }
+    if let Some(w) = unloadable.borrow().as_ref() {
+        note(format!("cache file fails to load {w}"));
+    }
+    check_bool("concurrent:cache_file_loads_at_every_moment", unloadable.borrow().is_none());
+    check_bool("concurrent:first_writer_flush_succeeds", ra.is_ok());
+    if let Some(ok) = *b_result.borrow() {
+        check_bool("concurrent:second_writer_flush_succeeds", ok);
+    }
+    check_bool("concurrent:a_cache_file_exists_afterwards", symrt::env::fs::exists(path));
+    // no other file is left behind next to the cache file
+    let leftovers: Vec<_> = symrt::env::fs::list().into_iter().filter(|p| p.to_str() != Some(path)).collect();
+    check_bool("concurrent:no_temporary_file_left_behind", leftovers.is_empty());
 }
 
 fn c18_corrupt() {
